@@ -291,6 +291,24 @@ pub fn fn_spec(name: &str) -> FnSpec {
             real: None,
             special: Some(Special::Concat),
         },
+        "ctxfn" => FnSpec {
+            name: "ctxfn",
+            params: vec![],
+            opts: vec![],
+            ret: Ty::Bytes,
+            imp: m_idb,
+            real: None,
+            special: Some(Special::CtxFn),
+        },
+        "boom" => FnSpec {
+            name: "boom",
+            params: vec![],
+            opts: vec![],
+            ret: Ty::Bool,
+            imp: m_idb,
+            real: None,
+            special: Some(Special::Panicky),
+        },
         other => panic!("unknown harness function {other}"),
     }
 }
